@@ -2,10 +2,11 @@
    cd ocaml/extracted && coqc -Q ../../coq ES ../../coq/Extract.v). *)
 From Coq Require Extraction ExtrOcamlBasic ExtrOcamlString.
 From ES Require Import Base Ssb.Param Ssb.Cfg Ssb.Equiv Ssb.Machine Lang.Ast Lang.Spec Lang.SrcSem
-  Comp.Passes Comp.Closed Text.Dec SM.Model.
+  Comp.Passes Comp.Closed Text.Dec SM.Model Script.Model.
 Extraction Language OCaml.
 Extraction "extracted.ml"
   equiv_run cfg_of_ssb ssb_entries cfg_of_prog pair_entries silent_cycle observe param_eqb
   strip finalize remove_all passes ordered closed_b
   serialize deserialize rewrite_offsets
+  print_script compile_script renumber
   Z.add Z.mul Z.opp Z.abs Z.div_eucl.
